@@ -51,6 +51,7 @@ ASSUMPTIONS = [
 OUTSIDE = ["rounding inside SuperLU and the sparse products", "devices with more than 4 terminals", "holes (covered at operator level by C03: R8)"]
 TV_SAMPLES = {"quick": 2, "thorough": 2}
 REACH_TIMEOUT = 60
+HOP_SLICE = True  # LU-contract obligations: try the assumptions one hop from the goal first
 
 
 def patch_spec(case):
